@@ -1856,6 +1856,11 @@ namespace jsoncons {
                                     const double y = val2;
                                     return x == y ? 0 : (x < y ? -1 : 1);
                                 }
+                                else if (is_string_storage(rhs.storage_kind()))
+                                {
+                                    // rhs is plain text: compare as text, as rhs.compare(*this) does
+                                    return as_string_view().compare(rhs.as_string_view());
+                                }
                                 else
                                 {
                                     return static_cast<int>(storage_kind()) - static_cast<int>(rhs.storage_kind());
